@@ -83,6 +83,8 @@ def replay_graph(
     edge_budget: Optional[int] = None,
     seed: int = 0,
     actions: Optional[set] = None,
+    first_actions: Optional[set] = None,
+    rebuild_from_history: bool = False,
     max_violations: int = 40,
     sample_every: int = 0,
 ) -> ReplayStats:
@@ -90,6 +92,10 @@ def replay_graph(
 
     actions: if given, only transitions with these action names are *compared*; all
     transitions are still executed to reach states.
+    first_actions: if given, only behaviours whose first transition is one of these actions are walked.
+    rebuild_from_history: the real objects of a state are not deep-copied at branch points but rebuilt by re-executing the
+    calls that led there.  Deep copies cut every sharing between objects (a numpy view of another object's array becomes
+    an array of its own), so only re-execution can show that a derived object still aliases its source (C12).
     """
     st = ReplayStats(edges_total=g.n_edges, states_total=len(g.nodes))
     rng = random.Random(seed)
@@ -103,13 +109,21 @@ def replay_graph(
     for init in g.init:
         real0 = adapter.initial(g.nodes[init])
         visited.add(init)
-        stack: List[Tuple[int, Any]] = [(init, real0)]
+        stack: List[Tuple[int, Any, Any]] = [(init, real0, [] if rebuild_from_history else None)]
+
+        def rebuild(hist):
+            r = adapter.initial(g.nodes[init])
+            for (a_, args_, pre_) in hist:
+                r, _o = adapter.apply(r, a_, args_, pre_)
+            return r
         while stack:
-            sid, real = stack.pop()
+            sid, real, hist = stack.pop()
             st.states_reached += 1
             pre = g.nodes[sid]
             groups: Dict[tuple, List[int]] = {}
             for lab, dst in g.out.get(sid, ()):
+                if first_actions is not None and sid == init and lab[0] not in first_actions:
+                    continue
                 groups.setdefault(lab, []).append(dst)
             for lab, dsts in groups.items():
                 need = [d for d in dsts if d not in visited]
@@ -118,9 +132,9 @@ def replay_graph(
                 action, args = lab
                 st.edges_replayed += 1
                 st.per_action[action] = st.per_action.get(action, 0) + 1
-                tag = adapter.tag(action, args, pre, real)
+                r2 = rebuild(hist) if hist is not None else adapter.clone(real)
+                tag = adapter.tag(action, args, pre, r2)
                 st.tags[tag] = st.tags.get(tag, 0) + 1
-                r2 = adapter.clone(real)
                 try:
                     r2, obs = adapter.apply(r2, action, args, pre)
                 except Exception as ex:  # harness failure, not an implementation refusal
@@ -142,7 +156,7 @@ def replay_graph(
                         st.samples.append(adapter.describe(action, args, pre))
                     if matched not in visited:
                         visited.add(matched)
-                        stack.append((matched, r2))
+                        stack.append((matched, r2 if hist is None else None, None if hist is None else hist + [(action, args, pre)]))
                     continue
                 # mismatch
                 assert best is not None
@@ -166,7 +180,7 @@ def replay_graph(
                         rb = adapter.build(g.nodes[d])
                         if rb is not None:
                             visited.add(d)
-                            stack.append((d, rb))
+                            stack.append((d, rb, None))
                         else:
                             st.skipped_unreached += 1
     st.wall_s = time.time() - t0
